@@ -263,7 +263,7 @@ def run(tier, seed):
     # the same programs with once-only variables written `_` and the named ones spelled like names a compiler
     # generates for its own purposes
     NAMES = [{"mode": "names:_G%d"}, {"mode": "names:_x%d"}, {"mode": "names:X%d"}, {"mode": "names:_%d"}, {"mode": "names:__%d_"}]
-    an = [gen.anonymise(gen.random_scenario(rnd, {"ops", "rich"}, nclauses=3, depth=rnd.choice([1, 2])), rnd) for _ in range(250 if tier == "quick" else 3000)]
+    an = [gen.anonymise(gen.random_scenario(rnd, {"ops", "rich"}, nclauses=3, depth=rnd.choice([1, 2])), rnd) for _ in range(250 if tier == "quick" else 1500)]
     chk.machine_family("anonymous-and-generated-looking-names", an + [gen.anonymise(f4_fresh(), rnd), gen.anonymise(corpus(), rnd)],
                        features=features, opts_list=NAMES)
     chk.machine_family("F5-multiclause-heads", f5_multiclause(rnd, 400 if tier == "quick" else 6000), features=features)
